@@ -439,13 +439,15 @@ def make_scope_forward_decor_curr(
             cls_root = cls_stack[0]
             cls_curr = cls_stack[-1]
 
-            # If this local scope is the empty frozen dictionary, mutate this
-            # local scope into a new mutable dictionary to enable new locals to
-            # be added to this scope below.
-            if func_locals is FROZENDICT_EMPTY:
-                func_locals = {}
-            # Else, this local scope is *NOT* the empty frozen dictionary.
-            # Presumably, this implies this scope to be a mutable dictionary.
+            # Copy this local scope into a new mutable dictionary to enable new
+            # locals to be added to this scope below. If this scope is that of a
+            # parent closure declaring this type, this scope is the *SAME*
+            # dictionary as the "f_locals" of the stack frame of that closure;
+            # adding locals to that dictionary in-place would leak the class
+            # variables of this type into the locals() of that closure and
+            # thus into the forward scopes of all types subsequently declared
+            # by that closure.
+            func_locals = dict(func_locals)
 
             # Add new locals exposing these types to type hints, overwriting any
             # locals of the same names in the higher-level local scope for any
